@@ -50,6 +50,7 @@ class System:
         self.free_stream = None if config.get("free_stream") is None else np.array(config["free_stream"], dtype=np.float64)
         kwargs = dict(
             grid_size=shape, x_range=fl["x_range"], kinematic_viscosity=config["nu"], cfl=config.get("cfl", 0.1), real_t=real_t, num_threads=num_threads,
+            time=float(config.get("time0", 0.0)),
             with_forcing=with_forcing, with_free_stream_flow=self.free_stream is not None, flow_density=config.get("rho", 1.0),
             penalty_zone_width=config.get("zone", 2),
         )
@@ -127,7 +128,7 @@ class System:
         common = dict(
             eul_grid_forcing_field=flow.eul_grid_forcing_field, eul_grid_velocity_field=flow.velocity_field,
             virtual_boundary_stiffness_coeff=spec["k"], virtual_boundary_damping_coeff=spec["c"], dx=flow.dx, grid_dim=dim, real_t=real_t,
-            enable_eul_grid_forcing_reset=reset, num_threads=num_threads,
+            enable_eul_grid_forcing_reset=reset, num_threads=num_threads, start_time=float(self.config.get("time0", 0.0)),
         )
         mo = spec.get("motion", {})
         b.amp = np.array((mo.get("amp", [0.0] * 3) + [0.0] * 3)[:3]) * dx
@@ -181,7 +182,7 @@ class System:
             b.pos0 = b.body.position_collection[:, 0].copy()
             if dim == 2:
                 b.amp[2] = 0.0
-            self._prescribe(b, 0.0)
+            self._prescribe(b, float(self.config.get("time0", 0.0)))
         return b
 
     def _prescribe(self, b, t: float) -> None:
